@@ -1144,7 +1144,7 @@ func c03ExpectedID(c *Ctx) {
 	makeSyncer := (*ssa.Function)(nil)
 	for _, f := range c.Funcs(dagsyncPkg) {
 		if len(c.Calls(f.SSA, Call("ipnisync.Sync).NewSyncer"))) > 0 {
-			makeSyncer = f.SSA
+			makeSyncer = c.outermost(f.SSA) // (the factory may be split into phases: the routine they are steps of)
 		}
 	}
 	if makeSyncer == nil {
@@ -1197,7 +1197,7 @@ func c03ExpectedIDEntry(c *Ctx, entry, makeSyncer *ssa.Function) {
 			isEntry := ok
 			if ok {
 				ec, _ := b["e"].V.(*ssa.Call)
-				isEntry = ec != nil && ec.Call.StaticCallee() == entry
+				isEntry = ec != nil && (ec.Call.StaticCallee() == entry || tailWraps(ec.Call.StaticCallee(), entry, 0))
 			}
 			if !isEntry {
 				c.Bad("C03.V4-expected-id-present", k, cs.In.Pos(), "sync client is not built from the result of the peer-info entry test: "+arg.String())
@@ -1214,16 +1214,25 @@ func c03ExpectedIDEntry(c *Ctx, entry, makeSyncer *ssa.Function) {
 
 func c03ExpectedIDInFactory(c *Ctx, makeSyncer *ssa.Function) {
 	// V4.3: the factory hands NewSyncer its parameter or a literal with the parameter's ID
-	for _, cs := range c.Calls(makeSyncer, Call("ipnisync.Sync).NewSyncer")) {
+	for _, cs := range c.CallsInl(makeSyncer, Call("ipnisync.Sync).NewSyncer"), 2) {
 		arg := cs.X.Args[1]
-		ok := arg.Op == "param"
-		if arg.Op == "complit" {
-			for _, fi := range arg.Args {
-				if fi.Name == "ID" && fi.Args[0].Op == "field" && fi.Args[0].Name == "ID" && fi.Args[0].Args[0].Op == "param" {
-					ok = true
+		ok := true
+		leaves := c.Leaves(arg, nil) // (through the phases of the factory: every value the argument can take)
+		for _, l := range leaves {
+			l = strip(l)
+			okL := l != nil && l.Op == "param"
+			if l != nil && l.Op == "complit" {
+				for _, fi := range l.Args {
+					if fi.Name == "ID" && fi.Args[0].Op == "field" && fi.Args[0].Name == "ID" && strip(fi.Args[0].Args[0]).Op == "param" {
+						okL = true
+					}
 				}
 			}
+			if !okL {
+				ok = false
+			}
 		}
+		ok = ok && len(leaves) > 0
 		c.Check(ok, "C03.V4-expected-id-present", c.short(makeSyncer.String())+" › NewSyncer argument", cs.In.Pos(), "NewSyncer receives the factory's peer info or a literal carrying its ID", "peer info handed to NewSyncer does not carry the caller's ID: "+arg.String())
 	}
 	// V4.4/4.5: inside NewSyncer the ID reaches the Syncer literal unchanged
@@ -1449,7 +1458,7 @@ func c03ExpectedIDAtFactory(c *Ctx) {
 	var factory *ssa.Function
 	for _, f := range c.Funcs(dagsyncPkg) {
 		if len(c.Calls(f.SSA, Call("ipnisync.Sync).NewSyncer"))) > 0 {
-			factory = f.SSA
+			factory = c.outermost(f.SSA)
 		}
 	}
 	if factory == nil {
@@ -1573,4 +1582,39 @@ func c03ExpectedIDAtFactory(c *Ctx) {
 	if n == 0 {
 		c.Unk("C03.V4-expected-id-present", "dagsync › sync client for a head query", token.NoPos, "no factory call on behalf of a head query found")
 	}
+}
+
+// tailWraps: every return of fn hands on, unchanged and in order, the results
+// of one call of target (or of another such wrapper): 'return target(…)'.
+func tailWraps(fn, target *ssa.Function, depth int) bool {
+	if fn == nil || target == nil || len(fn.Blocks) == 0 || depth > 2 {
+		return false
+	}
+	n := 0
+	for _, b := range fn.Blocks {
+		ret, ok := b.Instrs[len(b.Instrs)-1].(*ssa.Return)
+		if !ok {
+			continue
+		}
+		n++
+		var call *ssa.Call
+		for i, r := range ret.Results {
+			ex, ok := r.(*ssa.Extract)
+			if !ok || ex.Index != i {
+				return false
+			}
+			cl, ok := ex.Tuple.(*ssa.Call)
+			if !ok || (call != nil && cl != call) {
+				return false
+			}
+			call = cl
+		}
+		if call == nil {
+			return false
+		}
+		if sc := call.Call.StaticCallee(); sc != target && !tailWraps(sc, target, depth+1) {
+			return false
+		}
+	}
+	return n > 0
 }
